@@ -193,6 +193,21 @@ func (r *result) errorPathRoot() string {
 	return "_entities"
 }
 
+// errorPathRootData returns the value that the error paths below errorPathRoot are relative to.
+// The data path of a single entity fetch continues into the list (["data","_entities","0"]) and
+// selects the entity itself, while the subgraph's error paths still carry the index
+// (["_entities",0,"field"]): they have to be resolved against the list.
+func (r *result) errorPathRootData(response, responseData *astjson.Value) *astjson.Value {
+	root := r.errorPathRoot()
+	path := r.postProcessing.SelectResponseDataPath
+	for i := 0; i < len(path)-1; i++ {
+		if path[i] == root {
+			return response.Get(path[:i+1]...)
+		}
+	}
+	return responseData
+}
+
 // taintInfo is the FetchInfo used to compute tainted indices: a multi entry's
 // own info, otherwise the fetch item's fetch info.
 func (r *result) taintInfo(fetchItem *FetchItem) *FetchInfo {
@@ -754,7 +769,7 @@ func (l *Loader) mergeResult(fetchItem *FetchItem, res *result, items []*astjson
 			// we don't consider it as an error. Note: it is not compliant with graphql spec.
 			if hasErrors {
 				if l.validateRequiredExternalFields && res.postProcessing.SelectResponseDataPath != nil {
-					taintedIndices = getTaintedIndices(res.taintInfo(fetchItem), res.errorPathRoot(), responseData, responseErrors)
+					taintedIndices = getTaintedIndices(res.taintInfo(fetchItem), res.errorPathRoot(), res.errorPathRootData(response, responseData), responseErrors)
 				}
 				if len(taintedIndices) > 0 {
 					// Override errors with generic error about missing deps.
